@@ -84,6 +84,9 @@ def case_from_json(j):
     """corpus / replay files hold one oracle case (or one tie case, for a correspondence replay)"""
     m = j["meta"]
     s = Sys.from_json(m["sys"])
+    if m.get("role") == "seq":
+        extra = {k: v for k, v in m.items() if k not in ("role", "pre", "sys", "tol", "solvers", "budgets")}
+        return mk_seq_case(m["pre"], s, float(m["tol"]), m["solvers"], [int(v) for v in m["budgets"]], "corpus", extra=extra)
     extra = {k: v for k, v in m.items() if k not in ("solver", "sys", "maxit", "tol", "want_trace", "role", "oracle_line")}
     cs = mk_cases(m["solver"], s, int(m["maxit"]), float(m["tol"]), "corpus", True,
                   want_trace=m.get("want_trace", False), extra=extra)
@@ -272,7 +275,19 @@ def exact_residual_norm(s, x):
     return float(m) * math.sqrt(sum(float(v / m) ** 2 for v in r))
 
 def norm2(v):
-    return float(np.linalg.norm(np.array(v, dtype=float))) if len(v) else 0.0
+    """2-norm; the plain numpy value wherever it is trustworthy (bit-identical to what this function always returned),
+    the scaled form max * sqrt(sum (v/max)^2) where the squares of the entries leave the f64 range (reference side of
+    the recorded finding f64-square-range: the reference must not repeat the defect)"""
+    if not len(v): return 0.0
+    with np.errstate(all='ignore'):
+        r = float(np.linalg.norm(np.array(v, dtype=float)))
+    if r == 0.0 or r == math.inf or r < 2.0 ** -480 or r > 2.0 ** 480:
+        a = [abs(float(t)) for t in v]
+        if any(t != t for t in a): return float("nan")
+        m = max(a)
+        if m == 0.0 or m == math.inf: return m
+        return m * math.sqrt(sum((t / m) ** 2 for t in a))
+    return r
 
 def all_finite(v):
     return all(math.isfinite(t) for t in v)
@@ -417,3 +432,277 @@ def rhs_and_guess(rng, n, trip, guess_kind, rhs_kind, ints=True):
 
 def pick_tol(rng, lo=2, hi=12):
     return 10.0 ** (-rng.range(lo, hi))
+
+# ============================================================================= structured systems (special-values audit)
+# The random families above never draw the special STRUCTURE a fast path, a guard or a helper may key on.  The catalogue
+# below is a principled enumeration (not tied to any one patch) of:
+#   matrix structure : identity / scaled identity / negative identity, diagonal (arithmetic progression = exact zeros in
+#                      the residual after a step; two distinct eigenvalues; mixed signs), tridiagonal (symmetric,
+#                      Laplacian, nonsymmetric), dense upper / lower triangular, dense with EQUAL entries (ties) and with
+#                      alternating signs, arrow, decoupled blocks (1x1 + 2x2), explicitly stored zeros (+0.0 and -0.0);
+#                      C08 only: cyclic permutation and anti-diagonal (empty main diagonal), the zero matrix, a single
+#                      stored entry (first / last), an empty column, strictly upper (nilpotent)
+#   scale            : A * 2^sa, b * 2^sb  (powers of two: exactness is kept; every product of the iterations stays
+#                      inside the binary64 range), so that any ABSOLUTE threshold on a quantity that scales with A
+#                      (step length, omega, p.Ap, ...) or with b shows
+#   right-hand side  : A*xt (known solution), ones (equal entries), e_first / e_last / e_mid (one non-zero entry: unit
+#                      norm, rho = 1 exactly), alternating +-1 (equal magnitude, opposite sign), unit norm off the axes
+#                      (0.6, 0.8), zero, -0.0
+#   guess            : zero, -0.0, ones, far (2^20 * (+-1)), and with a known solution: exact, exact except in the
+#                      first / last / middle component (residual localised in one column), 2*xt (r0 = -b), -xt
+#   budget-0 guesses : in addition NaN, +-inf, 1e300, subnormal (x must come back bit for bit)
+STRUCT_BOTH = ["identity", "identity-2", "identity-half", "diag-ap", "diag-pairs", "tridiag-41", "dense-equal", "dense-alt",
+               "arrow", "block", "explicit-zeros"]                                    # SPD and strictly diagonally dominant
+STRUCT_SPD_ONLY = ["tridiag-lap"]
+STRUCT_SDD_ONLY = ["tridiag-nonsym", "upper-ones", "lower-ones"]
+STRUCT_SDD_MIXED = ["neg-identity", "diag-mixed"]
+STRUCT_C08_ONLY = ["perm-cyclic", "antidiag", "zero", "single-first", "single-last", "empty-col", "nilpotent"]
+STRUCT_ALL = STRUCT_BOTH + STRUCT_SPD_ONLY + STRUCT_SDD_ONLY + STRUCT_SDD_MIXED + STRUCT_C08_ONLY
+STRUCT_N = [1, 2, 3, 4, 5, 8]
+
+def struct_matrix(name, n):
+    """entry dictionary of the named structure at order n (all entries small integers or halves: exact)"""
+    A = {}
+    if name in ("identity", "identity-2", "identity-half", "neg-identity"):
+        c = {"identity": 1.0, "identity-2": 2.0, "identity-half": 0.5, "neg-identity": -1.0}[name]
+        for i in range(n): A[(i, i)] = c
+    elif name == "diag-ap":
+        for i in range(n): A[(i, i)] = float(i + 1)
+    elif name == "diag-pairs":
+        for i in range(n): A[(i, i)] = [2.0, 5.0][(i // 2) % 2]
+    elif name == "diag-mixed":
+        for i in range(n): A[(i, i)] = float(i + 1) * (-1.0) ** i
+    elif name in ("tridiag-41", "tridiag-lap", "tridiag-nonsym", "explicit-zeros", "empty-col"):
+        d, up, lo = {"tridiag-41": (4.0, -1.0, -1.0), "tridiag-lap": (2.0, -1.0, -1.0), "tridiag-nonsym": (4.0, -1.0, 2.0),
+                     "explicit-zeros": (4.0, -1.0, -1.0), "empty-col": (4.0, -1.0, -1.0)}[name]
+        for i in range(n):
+            A[(i, i)] = d
+            if i + 1 < n: A[(i, i + 1)] = up; A[(i + 1, i)] = lo
+        if name == "explicit-zeros":
+            for i in range(n):
+                for j in range(n):
+                    if abs(i - j) == 2: A[(i, j)] = 0.0 if (i + j) % 4 == 0 else -0.0
+            if n <= 2: A[(0, n - 1)] = A.get((0, n - 1), 0.0)
+        if name == "empty-col":
+            k = n // 2
+            A = {(i, j): v for (i, j), v in A.items() if j != k}
+    elif name == "upper-ones":
+        for i in range(n):
+            A[(i, i)] = float(n + 1)
+            for j in range(i + 1, n): A[(i, j)] = 1.0
+    elif name == "lower-ones":
+        for i in range(n):
+            A[(i, i)] = float(n + 1)
+            for j in range(i): A[(i, j)] = 1.0
+    elif name in ("dense-equal", "dense-alt"):
+        for i in range(n):
+            for j in range(n):
+                A[(i, j)] = float(2 * n) if i == j else (1.0 if name == "dense-equal" else (-1.0) ** (i + j))
+    elif name == "arrow":
+        for i in range(n):
+            A[(i, i)] = float(2 * n)
+            if i > 0: A[(0, i)] = 1.0; A[(i, 0)] = 1.0
+    elif name == "block":
+        i = 0
+        while i < n:
+            if i % 3 == 0 or i + 1 >= n:
+                A[(i, i)] = 3.0; i += 1
+            else:
+                A[(i, i)] = 4.0; A[(i + 1, i + 1)] = 3.0; A[(i, i + 1)] = 1.0; A[(i + 1, i)] = 1.0; i += 2
+    elif name == "perm-cyclic":
+        for i in range(n): A[(i, (i + 1) % n)] = 1.0
+    elif name == "antidiag":
+        for i in range(n): A[(i, n - 1 - i)] = float(i + 1)
+    elif name == "zero":
+        pass
+    elif name == "single-first":
+        A[(0, 0)] = 2.0
+    elif name == "single-last":
+        A[(n - 1, n - 1)] = 2.0
+    elif name == "nilpotent":
+        for i in range(n):
+            for j in range(i + 1, n): A[(i, j)] = 1.0
+    else:
+        raise ValueError(name)
+    return A
+
+def struct_class(name):
+    """problem class of a structure for C09: 'spd' (CG), 'sdd', 'sdd-mixed' (BiCG, BiCGSTAB, QMR), or None"""
+    r = []
+    if name in STRUCT_BOTH or name in STRUCT_SPD_ONLY: r.append("spd")
+    if name in STRUCT_BOTH or name in STRUCT_SDD_ONLY: r.append("sdd")
+    if name in STRUCT_SDD_MIXED: r.append("sdd-mixed")
+    return r
+
+RHS_KINDS = ["Axt", "Axt", "ones", "e-first", "e-last", "e-mid", "alt", "unit", "zero", "negzero"]
+GUESS_ANY = ["zero", "negzero", "ones", "far"]
+GUESS_XT = ["exact", "but-first", "but-last", "but-mid", "double", "neg"]
+GUESS_NONFINITE = ["nan", "inf", "neginf-mixed", "huge", "subnormal"]
+SCALES = [(0, 0), (0, 0), (0, 0), (60, 0), (-60, 0), (0, 200), (0, -200), (60, -200), (-60, 200), (120, 120), (-120, -120)]
+
+def struct_rhs_guess(n, trip, rhs_kind, guess_kind, sa=0, sb=0):
+    """b, x0 (and xt or None) for a structured system whose matrix entries carry the factor 2^sa; b carries 2^sb"""
+    xs = 2.0 ** (sb - sa)                    # scale of the solution
+    xt = None
+    if rhs_kind == "Axt":
+        xt = [float(i + 1) * (-1.0) ** i * xs for i in range(n)]
+        b = csc_mul(trip, n, xt)
+    elif rhs_kind == "ones": b = [2.0 ** sb] * n
+    elif rhs_kind in ("e-first", "e-last", "e-mid"):
+        k = {"e-first": 0, "e-last": n - 1, "e-mid": n // 2}[rhs_kind]
+        b = [0.0] * n; b[k] = 2.0 ** sb
+    elif rhs_kind == "alt": b = [(-1.0) ** i * 2.0 ** sb for i in range(n)]
+    elif rhs_kind == "unit":
+        b = [0.0] * n; b[0] = 0.6 * 2.0 ** sb
+        if n > 1: b[n - 1] = 0.8 * 2.0 ** sb
+    elif rhs_kind == "zero": b = [0.0] * n; xt = [0.0] * n
+    elif rhs_kind == "negzero": b = [-0.0] * n; xt = [0.0] * n
+    else: raise ValueError(rhs_kind)
+    g = guess_kind
+    if g in GUESS_XT and (xt is None or rhs_kind in ("zero", "negzero")):
+        g = "zero" if g == "exact" else "ones"
+    if g == "zero": x0 = [0.0] * n
+    elif g == "negzero": x0 = [-0.0] * n
+    elif g == "ones": x0 = [xs] * n
+    elif g == "far": x0 = [(-1.0) ** i * xs * 2.0 ** 20 for i in range(n)]
+    elif g == "exact": x0 = list(xt)
+    elif g in ("but-first", "but-last", "but-mid"):
+        k = {"but-first": 0, "but-last": n - 1, "but-mid": n // 2}[g]
+        x0 = list(xt); x0[k] = xt[k] + 3.0 * xs
+    elif g == "double": x0 = [2.0 * v for v in xt]
+    elif g == "neg": x0 = [-v for v in xt]
+    elif g == "nan": x0 = [xs] * n; x0[n // 2] = float("nan")
+    elif g == "inf": x0 = [float("inf")] * n
+    elif g == "neginf-mixed": x0 = [xs] * n; x0[0] = float("-inf")
+    elif g == "huge": x0 = [1e300 * (-1.0) ** i for i in range(n)]
+    elif g == "subnormal": x0 = [5e-324 if i % 2 == 0 else -2.0 ** -1060 for i in range(n)]
+    else: raise ValueError(g)
+    return b, x0, xt, g
+
+def struct_system(name, n, rhs_kind, guess_kind, sa=0, sb=0, order="sorted", rng=None):
+    A = struct_matrix(name, n)
+    if sa: A = {k: v * 2.0 ** sa for k, v in A.items()}
+    trip = triplets_of(rng, A, order)
+    b, x0, xt, g = struct_rhs_guess(n, trip, rhs_kind, guess_kind, sa, sb)
+    return Sys(n, n, trip, b, x0, {"fam": "struct", "struct": name, "rhs": rhs_kind, "guess": g, "sa": sa, "sb": sb})
+
+def scale_system(A, sa):
+    """every entry times 2^sa (exact)"""
+    return {k: v * 2.0 ** sa for k, v in A.items()}
+
+TOLS_SPECIAL = [1e-2, 1e-3, 1e-6, 1e-9, 1e-12, 2.0 ** -20, 2.0 ** -33, 3.7e-5, 6.1e-11]
+
+# ----------------------------------------------------------------------------- histories (executor kind it.seq)
+SOLVER_CODE = {"cg": 0, "bicg1": 1, "bicg2": 2, "bicgstab": 3, "qmr": 4}
+PRE_OPS = ["none", "tt", "vecs", "insert", "clone-x", ["scale", 2.0], ["scale", 0.5], ["scale", -1.0]]
+
+def mk_seq_case(pre, s, tol, solvers, budgets, family, nontrivial=True, extra=None):
+    """One matrix object, one x: the operation `pre` on the matrix, then the solvers one after the other, each
+    starting from what the previous call left in x.  Oracle only (no model term): every call is judged by the
+    property predicate against the reference matrix (the entries after `pre`), with the previous x as its guess."""
+    pw = pre if isinstance(pre, str) else "%s:%s" % (pre[0], tok_scalar('f64', pre[1]))
+    line = "it.seq %s %d %d [%s] [%s] %s %s %s %s [%s] [%s]" % (
+        pw, s.rows, s.cols,
+        ",".join(str(i) for (i, _, _) in s.trip), ",".join(str(j) for (_, j, _) in s.trip),
+        tok_vec('f64', [v for (_, _, v) in s.trip]), tok_vec('f64', s.b), tok_vec('f64', s.x0), tok_scalar('f64', tol),
+        ",".join(str(SOLVER_CODE[sv]) for sv in solvers), ",".join(str(int(m)) for m in budgets))
+    meta = {"role": "seq", "pre": pre, "sys": s.to_json(), "tol": tol, "solvers": list(solvers), "budgets": [int(m) for m in budgets]}
+    if extra: meta.update(extra)
+    return Case('f64', line, None, meta=meta, family=family, nontrivial=nontrivial, tol=TIE_TOL)
+
+def seq_reference(s, pre):
+    """the system the solvers must have seen: the triplets after the pre-operation (scale multiplies every stored entry)"""
+    if isinstance(pre, (list, tuple)) and pre[0] == "scale":
+        c = float(pre[1])
+        return Sys(s.rows, s.cols, [(i, j, v * c) for (i, j, v) in s.trip], s.b, s.x0, s.info)
+    return s
+
+def split_seq(items, nsteps):
+    """the answers of the successive calls (None: the executor panicked somewhere)"""
+    if items and items[-1][0] == 'P':
+        return None
+    out = []; pos = 0
+    for _ in range(nsteps):
+        n = items[pos + 2][1]
+        out.append(Ans(items[pos:pos + 4 + n]))
+        pos += 4 + n
+    if pos != len(items):
+        raise ValueError("bad it.seq answer")
+    return out
+
+# ----------------------------------------------------------------------------- recorded finding f64-square-range (C08, C09)
+# Vector<f64>::norm_2 squares its entries without scaling (the C15 finding of the same key); the solvers measure ||b|| and
+# ||r|| with it, so a right-hand side with ||b|| < 2^-511 is taken for zero (Ok(0) with x untouched), one with
+# ||b|| > 2^512 gives inf / NaN, and the dot products of the recurrences leave the range likewise.  The key is decided
+# from the INPUT alone.
+F64_MIN_NORMAL_Q = Fraction(1, 2 ** 1022)
+F64_RANGE_END_Q = Fraction(2 ** 1024)
+KEY_SQUARE_RANGE = "f64-square-range"
+
+def _leaves_range(q):
+    """q: exact non-negative rational; non-zero and outside the normal f64 range [2^-1022, 2^1024)"""
+    return q != 0 and not (F64_MIN_NORMAL_Q <= q < F64_RANGE_END_Q)
+
+def exact_solution(s):
+    """the exact solution of A x = b over the rationals (list of Fractions), or None (non-square, singular, non-finite)"""
+    n = s.rows
+    if s.rows != s.cols or len(s.b) != n or n == 0: return None
+    vals = [v for (_, _, v) in s.trip] + list(s.b)
+    if not all(math.isfinite(v) for v in vals): return None
+    M = [[Fraction(0)] * (n + 1) for _ in range(n)]
+    for (i, j, v) in s.trip: M[i][j] += Fraction(v)
+    for i in range(n): M[i][n] = Fraction(s.b[i])
+    for c in range(n):
+        p = next((r for r in range(c, n) if M[r][c] != 0), None)
+        if p is None: return None
+        M[c], M[p] = M[p], M[c]
+        for r in range(c + 1, n):
+            if M[r][c] != 0:
+                f = M[r][c] / M[c][c]
+                for k in range(c, n + 1): M[r][k] -= f * M[c][k]
+    x = [Fraction(0)] * n
+    for i in range(n - 1, -1, -1):
+        x[i] = (M[i][n] - sum(M[i][k] * x[k] for k in range(i + 1, n))) / M[i][i]
+    return x
+
+def scale_out_of_range(s):
+    """True exactly when the INPUT has ||b||^2 (exact sum of squares), or the square of an entry of b / x0 / A, or a
+    product A_ij * x_j of the EXACT solution, non-zero and outside the normal f64 range [2^-1022, 2^1024).
+    Inputs with a non-finite entry are outside the quantifier: never."""
+    vals = [v for (_, _, v) in s.trip]
+    if not all(math.isfinite(v) for v in vals + list(s.b) + list(s.x0)): return False
+    if _leaves_range(sum(Fraction(v) ** 2 for v in s.b)): return True
+    if any(_leaves_range(Fraction(v) ** 2) for v in list(s.b) + list(s.x0) + vals): return True
+    x = exact_solution(s)
+    if x is not None and any(_leaves_range(abs(Fraction(v) * x[j])) for (i, j, v) in s.trip): return True
+    return False
+
+def extreme_systems(g, tier, budget_of_n):
+    """Adversarial family for the recorded finding: small well-posed systems (SPD for CG, strictly diagonally dominant for
+    the others; all five entry points over the run) with the right-hand side or the matrix scaled by 2^+-(520..700), or a
+    solution beyond the f64 range.  Yields (solver, Sys, budget, tol, kappa, fam)."""
+    kinds = ["b-tiny", "b-huge", "A-tiny", "A-huge", "x-overflow"]
+    out = []
+    for t in range(5 if tier == "quick" else 40):
+        sv = SOLVERS[t % len(SOLVERS)]
+        fam = "spd" if sv == "cg" else "sdd"
+        n = g.range(2, 5)
+        A = spd_system(g, n, True) if fam == "spd" else sdd_system(g, n, True)
+        if fam == "spd":
+            D = np.zeros((n, n))
+            for (i, j), v in A.items(): D[i, j] = v
+            kap = float(np.linalg.cond(D, 2))
+        else:
+            kap = gershgorin_kappa(A, n)
+        kind = kinds[(t + t // len(SOLVERS) + g.below(len(kinds))) % len(kinds)]
+        e = g.range(520, 700)
+        sa, sb = {"b-tiny": (0, -e), "b-huge": (0, e), "A-tiny": (-e, 0), "A-huge": (e, 0),
+                  "x-overflow": (-e, min(505, 1030 - e + g.range(0, 60)))}[kind]
+        xt = [float(g.range(1, 4)) * (1.0 if g.chance(1, 2) else -1.0) for _ in range(n)]
+        b0 = csc_mul(triplets_of(g, A, "sorted"), n, xt)             # small integers: exact
+        trip = triplets_of(g, scale_system(A, sa))
+        b = [v * 2.0 ** sb for v in b0]
+        x0 = [0.0] * n if (kind != "b-tiny" or g.chance(1, 2)) else [float(g.range(-3, 3)) for _ in range(n)]
+        s = Sys(n, n, trip, b, x0, {"fam": fam, "extreme": kind, "sa": sa, "sb": sb})
+        out.append((sv, s, budget_of_n(n), pick_tol(g, 3, 10), kap, fam))
+    return out
